@@ -51,6 +51,7 @@ struct Task {
 struct Access {
     uint32_t clk = 0;
     uint32_t site = 0;
+    void *pc = nullptr; // address of the instrumented access itself (resolves to the inlined covfie line)
 };
 struct Cell {
     int w_tid = -1;
@@ -242,7 +243,7 @@ void relinquish(Task &t, bool wait_after)
         sem_wait(&t.sem);
 }
 
-void report_race(Task &t, uintptr_t addr, int tid_a, const Access &a, bool write_a, bool write_b, int size)
+void report_race(Task &t, uintptr_t addr, int tid_a, const Access &a, bool write_a, bool write_b, int size, void *pc_b)
 {
     ++g_race->count;
     if (g_race->found)
@@ -253,13 +254,13 @@ void report_race(Task &t, uintptr_t addr, int tid_a, const Access &a, bool write
     g_race->write_a = write_a;
     g_race->write_b = write_b;
     g_race->size_b = size;
-    g_race->where_a = site_text(a.site);
-    g_race->where_b = site_text(site_of(t));
+    g_race->where_a = symbol_of(a.pc) + " <- " + site_text(a.site);
+    g_race->where_b = symbol_of(pc_b) + " <- " + site_text(site_of(t));
     (void)addr;
     g_race->object = "shared memory outside the tasks' own stacks";
 }
 
-void on_access(void *p, size_t n, bool write)
+void on_access(void *p, size_t n, bool write, void *pc)
 {
     if (tl_task < 0 || !g_parallel || tl_in_rt)
         return;
@@ -275,19 +276,21 @@ void on_access(void *p, size_t n, bool write)
         for (size_t i = 0; i < n; ++i) {
             Cell &c = (*g_shadow)[a + i];
             if (c.w_tid >= 0 && c.w_tid != t.id && c.w.clk > t.vc.c[c.w_tid])
-                report_race(t, a + i, c.w_tid, c.w, true, write, (int)n);
+                report_race(t, a + i, c.w_tid, c.w, true, write, (int)n, pc);
             if (write) {
                 for (int k = 0; k < g_ntasks; ++k)
                     if (k != t.id && c.r[k].clk > t.vc.c[k])
-                        report_race(t, a + i, k, c.r[k], false, true, (int)n);
+                        report_race(t, a + i, k, c.r[k], false, true, (int)n, pc);
                 c.w_tid = t.id;
                 c.w.clk = myclk;
                 c.w.site = site;
+                c.w.pc = pc;
                 for (int k = 0; k < g_ntasks; ++k)
                     c.r[k].clk = 0;
             } else {
                 c.r[t.id].clk = myclk;
                 c.r[t.id].site = site;
+                c.r[t.id].pc = pc;
             }
         }
     }
@@ -459,19 +462,19 @@ void __tsan_func_exit()
 #define RW(n)                                                                                                          \
     void __tsan_read##n(void *a)                                                                                       \
     {                                                                                                                  \
-        on_access(a, n, false);                                                                                        \
+        on_access(a, n, false, __builtin_return_address(0));                                                                                        \
     }                                                                                                                  \
     void __tsan_write##n(void *a)                                                                                      \
     {                                                                                                                  \
-        on_access(a, n, true);                                                                                         \
+        on_access(a, n, true, __builtin_return_address(0));                                                                                         \
     }                                                                                                                  \
     void __tsan_unaligned_read##n(void *a)                                                                             \
     {                                                                                                                  \
-        on_access(a, n, false);                                                                                        \
+        on_access(a, n, false, __builtin_return_address(0));                                                                                        \
     }                                                                                                                  \
     void __tsan_unaligned_write##n(void *a)                                                                            \
     {                                                                                                                  \
-        on_access(a, n, true);                                                                                         \
+        on_access(a, n, true, __builtin_return_address(0));                                                                                         \
     }
 RW(1)
 RW(2)
@@ -480,39 +483,39 @@ RW(8)
 RW(16)
 void __tsan_read_range(void *a, long n)
 {
-    on_access(a, (size_t)n, false);
+    on_access(a, (size_t)n, false, __builtin_return_address(0));
 }
 void __tsan_write_range(void *a, long n)
 {
-    on_access(a, (size_t)n, true);
+    on_access(a, (size_t)n, true, __builtin_return_address(0));
 }
 void __tsan_vptr_update(void **vptr, void *)
 {
-    on_access(vptr, sizeof(void *), true);
+    on_access(vptr, sizeof(void *), true, __builtin_return_address(0));
 }
 void __tsan_vptr_read(void **vptr)
 {
-    on_access(vptr, sizeof(void *), false);
+    on_access(vptr, sizeof(void *), false, __builtin_return_address(0));
 }
 void __tsan_read_write1(void *a)
 {
-    on_access(a, 1, true);
+    on_access(a, 1, true, __builtin_return_address(0));
 }
 void __tsan_read_write2(void *a)
 {
-    on_access(a, 2, true);
+    on_access(a, 2, true, __builtin_return_address(0));
 }
 void __tsan_read_write4(void *a)
 {
-    on_access(a, 4, true);
+    on_access(a, 4, true, __builtin_return_address(0));
 }
 void __tsan_read_write8(void *a)
 {
-    on_access(a, 8, true);
+    on_access(a, 8, true, __builtin_return_address(0));
 }
 void __tsan_read_write16(void *a)
 {
-    on_access(a, 16, true);
+    on_access(a, 16, true, __builtin_return_address(0));
 }
 
 // ---- atomics: executed for real, and modelled as synchronisation
